@@ -57,6 +57,8 @@ def fault_fn(task_name: str, nout: int, fault: dict | None):
                 if fault is not None and fault["at"] == "between" and i == 1:
                     boom()
                 yield base + "#" + str(i)
+            if fault is not None and fault["at"] == "after":
+                boom()  # every output was yielded (and published) already
 
         return gen()
 
